@@ -431,124 +431,178 @@ impl QueryEngine {
         Ok(stream)
     }
 
-    /// Extract time range from a SQL query by analyzing the logical plan
+    /// Extract time range from a SQL query by analyzing the logical plan.
+    ///
+    /// The range is a sound bound: every row the statement can return has its timestamp
+    /// inside it. Conjunctions intersect, disjunctions take the hull, and anything that is
+    /// not understood (NOT, functions of the column, ...) does not restrict the range.
+    /// Without any timestamp predicate the default is the last hour.
     pub async fn extract_time_range(&self, sql: &str) -> Result<TimeRange> {
         let df = self.plan_sql(sql).await?;
         let plan = df.logical_plan();
 
-        // Extract time predicates from the plan
-        let mut min_time: Option<i64> = None;
-        let mut max_time: Option<i64> = None;
+        let now_dt = chrono::Utc::now();
+        let now = now_dt.timestamp_nanos_opt().unwrap_or(0);
+        let props = datafusion::execution::context::ExecutionProps::new()
+            .with_query_execution_start_time(now_dt);
 
-        Self::extract_time_bounds(plan, &mut min_time, &mut max_time);
+        let mut mentions_timestamp = false;
+        let (min_time, max_time) = Self::plan_time_bounds(plan, &props, &mut mentions_timestamp);
 
-        // Default to last hour if no time bounds found
-        let now = chrono::Utc::now().timestamp_nanos_opt().unwrap_or(0);
-        let hour_ago = now - 3_600_000_000_000;
+        if !mentions_timestamp {
+            // Default to last hour if the statement does not constrain the timestamp at all
+            return Ok(TimeRange::new(now - 3_600_000_000_000, now));
+        }
 
         Ok(TimeRange::new(
-            min_time.unwrap_or(hour_ago),
-            max_time.unwrap_or(now),
+            min_time.unwrap_or(i64::MIN),
+            max_time.unwrap_or(i64::MAX),
         ))
     }
 
-    /// Recursively extract time bounds from a logical plan
-    fn extract_time_bounds(
+    /// Timestamp bounds (None = unbounded on that side) of the rows a plan can produce
+    fn plan_time_bounds(
         plan: &LogicalPlan,
-        min_time: &mut Option<i64>,
-        max_time: &mut Option<i64>,
-    ) {
-        match plan {
-            LogicalPlan::Filter(filter) => {
-                Self::extract_time_from_expr(&filter.predicate, min_time, max_time);
-                Self::extract_time_bounds(&filter.input, min_time, max_time);
+        props: &datafusion::execution::context::ExecutionProps,
+        mentions_timestamp: &mut bool,
+    ) -> (Option<i64>, Option<i64>) {
+        let inputs = plan.inputs();
+        // Several inputs (UNION, JOIN): a row may come from any of them
+        let mut bounds = match inputs.len() {
+            0 => (None, None),
+            1 => Self::plan_time_bounds(inputs[0], props, mentions_timestamp),
+            _ => inputs
+                .iter()
+                .map(|input| Self::plan_time_bounds(input, props, mentions_timestamp))
+                .reduce(Self::hull)
+                .unwrap_or((None, None)),
+        };
+        if let LogicalPlan::Filter(filter) = plan {
+            if Self::mentions_timestamp_column(&filter.predicate) {
+                *mentions_timestamp = true;
             }
-            LogicalPlan::Projection(proj) => {
-                Self::extract_time_bounds(&proj.input, min_time, max_time);
-            }
-            LogicalPlan::Sort(sort) => {
-                Self::extract_time_bounds(&sort.input, min_time, max_time);
-            }
-            LogicalPlan::Limit(limit) => {
-                Self::extract_time_bounds(&limit.input, min_time, max_time);
-            }
-            LogicalPlan::Aggregate(agg) => {
-                Self::extract_time_bounds(&agg.input, min_time, max_time);
-            }
-            _ => {}
+            bounds = Self::intersect(bounds, Self::expr_time_bounds(&filter.predicate, props));
         }
+        bounds
     }
 
-    /// Extract time bounds from a filter expression
-    fn extract_time_from_expr(expr: &Expr, min_time: &mut Option<i64>, max_time: &mut Option<i64>) {
+    fn intersect(
+        a: (Option<i64>, Option<i64>),
+        b: (Option<i64>, Option<i64>),
+    ) -> (Option<i64>, Option<i64>) {
+        let lo = match (a.0, b.0) {
+            (Some(x), Some(y)) => Some(x.max(y)),
+            (x, y) => x.or(y),
+        };
+        let hi = match (a.1, b.1) {
+            (Some(x), Some(y)) => Some(x.min(y)),
+            (x, y) => x.or(y),
+        };
+        (lo, hi)
+    }
+
+    fn hull(
+        a: (Option<i64>, Option<i64>),
+        b: (Option<i64>, Option<i64>),
+    ) -> (Option<i64>, Option<i64>) {
+        let lo = match (a.0, b.0) {
+            (Some(x), Some(y)) => Some(x.min(y)),
+            _ => None,
+        };
+        let hi = match (a.1, b.1) {
+            (Some(x), Some(y)) => Some(x.max(y)),
+            _ => None,
+        };
+        (lo, hi)
+    }
+
+    fn is_timestamp_column(expr: &Expr) -> bool {
+        matches!(expr, Expr::Column(col) if col.name == "timestamp" || col.name == "time")
+    }
+
+    fn mentions_timestamp_column(expr: &Expr) -> bool {
+        expr.column_refs()
+            .iter()
+            .any(|col| col.name == "timestamp" || col.name == "time")
+    }
+
+    /// Timestamp bounds implied by a filter expression (None = unbounded on that side)
+    fn expr_time_bounds(
+        expr: &Expr,
+        props: &datafusion::execution::context::ExecutionProps,
+    ) -> (Option<i64>, Option<i64>) {
         match expr {
-            Expr::BinaryExpr(binary) => {
-                // Check if this is a timestamp comparison
-                if let Expr::Column(col) = binary.left.as_ref() {
-                    if col.name == "timestamp" || col.name == "time" {
-                        if let Some(value) = Self::extract_timestamp_value(&binary.right) {
-                            match binary.op {
-                                Operator::Gt | Operator::GtEq => {
-                                    *min_time = Some(min_time.unwrap_or(i64::MAX).min(value));
-                                }
-                                Operator::Lt | Operator::LtEq => {
-                                    *max_time = Some(max_time.unwrap_or(i64::MIN).max(value));
-                                }
-                                Operator::Eq => {
-                                    *min_time = Some(value);
-                                    *max_time = Some(value);
-                                }
-                                _ => {}
-                            }
-                        }
+            Expr::BinaryExpr(binary) => match binary.op {
+                Operator::And => Self::intersect(
+                    Self::expr_time_bounds(&binary.left, props),
+                    Self::expr_time_bounds(&binary.right, props),
+                ),
+                Operator::Or => Self::hull(
+                    Self::expr_time_bounds(&binary.left, props),
+                    Self::expr_time_bounds(&binary.right, props),
+                ),
+                op => {
+                    // timestamp <op> value, or value <op> timestamp (mirrored)
+                    let (value, op) = if Self::is_timestamp_column(&binary.left) {
+                        (Self::extract_timestamp_value(&binary.right, props), op)
+                    } else if Self::is_timestamp_column(&binary.right) {
+                        let mirrored = match op {
+                            Operator::Lt => Operator::Gt,
+                            Operator::LtEq => Operator::GtEq,
+                            Operator::Gt => Operator::Lt,
+                            Operator::GtEq => Operator::LtEq,
+                            other => other,
+                        };
+                        (Self::extract_timestamp_value(&binary.left, props), mirrored)
+                    } else {
+                        (None, op)
+                    };
+                    match (value, op) {
+                        (Some(v), Operator::Gt | Operator::GtEq) => (Some(v), None),
+                        (Some(v), Operator::Lt | Operator::LtEq) => (None, Some(v)),
+                        (Some(v), Operator::Eq) => (Some(v), Some(v)),
+                        _ => (None, None),
                     }
                 }
-                // Handle reversed comparison (literal on left)
-                if let Expr::Column(col) = binary.right.as_ref() {
-                    if col.name == "timestamp" || col.name == "time" {
-                        if let Some(value) = Self::extract_timestamp_value(&binary.left) {
-                            match binary.op {
-                                Operator::Lt | Operator::LtEq => {
-                                    *min_time = Some(min_time.unwrap_or(i64::MAX).min(value));
-                                }
-                                Operator::Gt | Operator::GtEq => {
-                                    *max_time = Some(max_time.unwrap_or(i64::MIN).max(value));
-                                }
-                                _ => {}
-                            }
-                        }
-                    }
-                }
-                // Recurse into AND/OR expressions
-                if matches!(binary.op, Operator::And | Operator::Or) {
-                    Self::extract_time_from_expr(&binary.left, min_time, max_time);
-                    Self::extract_time_from_expr(&binary.right, min_time, max_time);
-                }
+            },
+            Expr::Between(between)
+                if !between.negated && Self::is_timestamp_column(&between.expr) =>
+            {
+                (
+                    Self::extract_timestamp_value(&between.low, props),
+                    Self::extract_timestamp_value(&between.high, props),
+                )
             }
-            Expr::Between(between) => {
-                if let Expr::Column(col) = between.expr.as_ref() {
-                    if col.name == "timestamp" || col.name == "time" {
-                        if let Some(low) = Self::extract_timestamp_value(&between.low) {
-                            *min_time = Some(min_time.unwrap_or(i64::MAX).min(low));
-                        }
-                        if let Some(high) = Self::extract_timestamp_value(&between.high) {
-                            *max_time = Some(max_time.unwrap_or(i64::MIN).max(high));
-                        }
-                    }
-                }
-            }
-            _ => {}
+            _ => (None, None),
         }
     }
 
-    /// Extract timestamp value from an expression
-    fn extract_timestamp_value(expr: &Expr) -> Option<i64> {
+    /// Extract timestamp value (nanoseconds) from a literal or a constant expression such as
+    /// TIMESTAMP '...', to_timestamp_nanos(...) or now() - INTERVAL '1 hour'
+    fn extract_timestamp_value(
+        expr: &Expr,
+        props: &datafusion::execution::context::ExecutionProps,
+    ) -> Option<i64> {
+        let folded;
+        let expr = if matches!(expr, Expr::Literal(_)) || !expr.column_refs().is_empty() {
+            expr
+        } else {
+            use datafusion::optimizer::simplify_expressions::{ExprSimplifier, SimplifyContext};
+            let context = SimplifyContext::new(props)
+                .with_schema(Arc::new(datafusion::common::DFSchema::empty()));
+            folded = ExprSimplifier::new(context).simplify(expr.clone()).ok()?;
+            &folded
+        };
         match expr {
             Expr::Literal(ScalarValue::Int64(Some(v))) => Some(*v),
             Expr::Literal(ScalarValue::TimestampNanosecond(Some(v), _)) => Some(*v),
-            Expr::Literal(ScalarValue::TimestampMicrosecond(Some(v), _)) => Some(*v * 1000),
-            Expr::Literal(ScalarValue::TimestampMillisecond(Some(v), _)) => Some(*v * 1_000_000),
-            Expr::Literal(ScalarValue::TimestampSecond(Some(v), _)) => Some(*v * 1_000_000_000),
+            Expr::Literal(ScalarValue::TimestampMicrosecond(Some(v), _)) => v.checked_mul(1000),
+            Expr::Literal(ScalarValue::TimestampMillisecond(Some(v), _)) => {
+                v.checked_mul(1_000_000)
+            }
+            Expr::Literal(ScalarValue::TimestampSecond(Some(v), _)) => {
+                v.checked_mul(1_000_000_000)
+            }
             _ => None,
         }
     }
